@@ -116,9 +116,9 @@ def race_oracle(case):
 
 
 def check(rep, tier, seed):
-    n_hist, n_rounds = (24, 8) if tier == "quick" else (600, 14)
+    n_hist, n_rounds = (24, 8) if tier == "quick" else (3000, 14)
     cases = [gen_case(seed, i, ENGINES[i % len(ENGINES)], n_rounds) for i in range(n_hist)]
-    cases += [race_case(seed, i, ENGINES[i % 3]) for i in range(12 if tier == "quick" else 300)]
+    cases += [race_case(seed, i, ENGINES[i % 3]) for i in range(12 if tier == "quick" else 1500)]
     core.run_cases(cases)
     for c in cases:
         rep.count_case(c)
